@@ -316,6 +316,24 @@ func newC05Env(dir string, kek tink.AEAD) (*c05Env, error) {
 	return e, nil
 }
 
+// reopen drops the handle (and its audit writer) and opens the file on disk again with the
+// same key; returns the uses of the key during the open.
+func (e *c05Env) reopen() (int, error) {
+	e.aw.Close()
+	aw, err := audit.NewFile(filepath.Join(e.state, "audit.log"))
+	if err != nil {
+		return 0, err
+	}
+	e.aw = aw
+	k0 := e.kek.count()
+	d, err := db.Open(e.path, e.kek, aw)
+	if err != nil {
+		return e.kek.count() - k0, err
+	}
+	e.d = d
+	return e.kek.count() - k0, nil
+}
+
 func (e *c05Env) close() {
 	e.aw.Close()
 	os.RemoveAll(e.dir)
@@ -351,6 +369,8 @@ func (e *c05Env) step(m *c05Markers, st DBStep) c05StepObs {
 			}
 		}()
 		switch st.Kind {
+		case "reopen":
+			_, err = e.reopen()
 		case "put":
 			_, err = e.d.Put(e.super, name, m.values[(st.Val-1)%len(m.values)])
 		case "activate":
@@ -394,14 +414,33 @@ func coqSobs(o c05StepObs) string {
 func coqHist(m *c05Markers, ops []DBStep, obs []c05StepObs) string {
 	parts := make([]string, len(ops))
 	for i := range ops {
-		parts[i] = fmt.Sprintf("(%s, %s)", c05CoqOp(m, ops[i]), coqSobs(obs[i]))
+		if ops[i].Kind == "reopen" {
+			parts[i] = fmt.Sprintf("HRe (%s)", coqSobs(obs[i]))
+		} else {
+			parts[i] = fmt.Sprintf("HOp (%s) (%s)", c05CoqOp(m, ops[i]), coqSobs(obs[i]))
+		}
 	}
 	return "Hist " + coqList(parts)
 }
 
-func genC05Step(r *rand.Rand, m *c05Markers, last []secDump) DBStep {
+// genC05Step: prev is the previous step's kind; long histories are mutation-heavy with rare
+// reopens (many saves on one handle), the others reopen often.
+func genC05Step(r *rand.Rand, m *c05Markers, last []secDump, prev string, long bool) DBStep {
 	kinds := []string{"put", "put", "put", "put", "put", "activate", "activate", "delver", "delver", "del", "get", "getver", "info", "list"}
+	if long {
+		kinds = []string{"put", "put", "put", "put", "put", "put", "activate", "activate", "delver", "get"}
+	}
 	st := DBStep{Kind: kinds[r.IntN(len(kinds))]}
+	pre := 6
+	if long {
+		pre = 40
+	}
+	if prev != "reopen" && r.IntN(pre) == 0 {
+		return DBStep{Kind: "reopen"}
+	}
+	if prev == "reopen" && r.IntN(4) > 0 {
+		st.Kind = "put" // the first write after a reopen
+	}
 	st.Name = m.names[r.IntN(len(m.names))]
 	if r.IntN(3) > 0 {
 		st.Name = m.names[r.IntN(2)]
@@ -444,10 +483,20 @@ func runC05History(work string, idx int, mseed uint64, ops []DBStep, r *rand.Ran
 			do(st)
 		}
 	} else {
+		long := length > 24
+		prev := ""
 		for len(in.Ops) < length {
-			st := genC05Step(r, m, last)
+			st := genC05Step(r, m, last, prev, long)
+			if len(in.Ops) == length-2 && !long {
+				st = DBStep{Kind: "reopen"} // the final file is written by a reopened handle
+			}
+			if prev == "reopen" && len(in.Ops) == length-1 {
+				st = DBStep{Kind: "put", Name: m.names[r.IntN(2)], Val: 1 + r.IntN(len(m.values))}
+				st.NameQ = fmt.Sprintf("%q", st.Name)
+			}
 			in.Ops = append(in.Ops, st)
 			do(st)
+			prev = st.Kind
 		}
 	}
 	kb, _ := json.Marshal(in.Ops)
@@ -457,6 +506,9 @@ func runC05History(work string, idx int, mseed uint64, ops []DBStep, r *rand.Ran
 		tags["op:"+st.Kind] = true
 		if isMut(st.Kind) && obs[i].Res == "" {
 			saves++
+		}
+		if st.Kind == "reopen" && i+1 < len(in.Ops) && isMut(in.Ops[i+1].Kind) {
+			tags["write-after-reopen"] = true
 		}
 	}
 	rec := Record{Kind: "hist", Input: in, Obs: obs, Key: fmt.Sprintf("%d:%s", mseed, kb), Coq: coqHist(m, in.Ops, obs),
@@ -469,46 +521,120 @@ func runC05History(work string, idx int, mseed uint64, ops []DBStep, r *rand.Ran
 type tamperCase struct {
 	class, detail string
 	bytes         []byte
-	kek           tink.AEAD
+	key           int // index into the session's keys: 0 = the key the database was created with
 }
 
-func openOutcome(scratch string, t tamperCase, tok func([]byte) uint64) (opened bool, dump []secDump, note string) {
-	os.WriteFile(scratch, t.bytes, 0600)
-	defer os.Remove(scratch)
+// openSession: db.Open attempts made in THIS process on ONE path.  Every attempt is preceded
+// and followed by a successful open of the original bytes with the right key, so that
+// anything a successful open may leave behind in the process is in place when the altered
+// file or the foreign key is tried.  Every key is behind its own counting proxy.
+type openSession struct {
+	path   string
+	keys   []*countingAEAD
+	orig   []byte
+	tok    func([]byte) uint64
+	dumps  []string // table of distinct dumps (Gallina), referenced by index
+	dumpIx map[string]int
+}
+
+type attempt struct {
+	Kind   string    `json:"kind"` // AR | AF | AT
+	Class  string    `json:"class"`
+	Detail string    `json:"detail"`
+	Opened bool      `json:"opened"`
+	Dump   []secDump `json:"contents,omitempty"`
+	Given  int       `json:"uses_of_given_key"`
+	Others int       `json:"uses_of_other_keys"`
+	Err    string    `json:"error,omitempty"`
+	Panic  bool      `json:"panic,omitempty"`
+}
+
+func (s *openSession) try(kind string, t tamperCase) attempt {
+	a := attempt{Kind: kind, Class: t.class, Detail: t.detail}
+	os.WriteFile(s.path, t.bytes, 0600)
+	before := make([]int, len(s.keys))
+	for i, k := range s.keys {
+		before[i] = k.count()
+	}
 	var d *db.DB
 	var err error
 	func() {
 		defer func() {
 			if p := recover(); p != nil {
 				err = fmt.Errorf("PANIC: %v", p)
-				note = "panic"
+				a.Panic = true
 			}
 		}()
-		d, err = db.Open(scratch, t.kek, audit.New(io.Discard))
+		d, err = db.Open(s.path, s.keys[t.key], audit.New(io.Discard))
 	}()
-	if err != nil {
-		return false, nil, err.Error()
+	for i, k := range s.keys {
+		if i == t.key {
+			a.Given = k.count() - before[i]
+		} else {
+			a.Others += k.count() - before[i]
+		}
 	}
-	// dump through the API with this history's token table
+	if err != nil {
+		a.Err = err.Error()
+		return a
+	}
 	super := mkCaller(DBCaller{ID: 0, Rules: superRules()})
 	infos, err := d.List(super)
 	if err != nil {
-		return false, nil, "list: " + err.Error()
+		a.Err = "list: " + err.Error()
+		return a
 	}
+	dump := []secDump{}
 	for _, in := range infos {
 		sd := secDump{Name: []byte(in.Name), Active: uint64(in.ActiveVersion)}
 		for _, v := range in.Versions {
 			sv, err := d.GetVersion(super, in.Name, v)
 			if err != nil {
-				return false, nil, "get: " + err.Error()
+				a.Err = "get: " + err.Error()
+				return a
 			}
-			sd.Vers = append(sd.Vers, verVal{Ver: uint64(v), Val: tok(sv.Value)})
+			sd.Vers = append(sd.Vers, verVal{Ver: uint64(v), Val: s.tok(sv.Value)})
 		}
 		sort.Slice(sd.Vers, func(i, j int) bool { return sd.Vers[i].Ver < sd.Vers[j].Ver })
 		dump = append(dump, sd)
 	}
 	sort.Slice(dump, func(i, j int) bool { return bytes.Compare(dump[i].Name, dump[j].Name) < 0 })
-	return true, dump, ""
+	a.Opened, a.Dump = true, dump
+	return a
+}
+
+func (s *openSession) right() attempt {
+	return s.try("AR", tamperCase{"right-key", "original bytes, the key the database was created with", s.orig, 0})
+}
+
+// coq prints one attempt; the dump goes into the session's table
+func (s *openSession) coq(a attempt) string {
+	out := "None"
+	if a.Opened {
+		c := coqDisk(a.Dump)
+		i, ok := s.dumpIx[c]
+		if !ok {
+			i = len(s.dumps)
+			s.dumps = append(s.dumps, c)
+			s.dumpIx[c] = i
+		}
+		out = fmt.Sprintf("(Some %d)", i)
+	}
+	return fmt.Sprintf("At %s %s %d %d", a.Kind, out, a.Given, a.Others)
+}
+
+// suspicious: routing only (such attempts get a report of their own; the kernel judges all)
+func suspicious(a attempt, orig []secDump) bool {
+	if a.Panic || a.Others != 0 || a.Given > 1 {
+		return true
+	}
+	switch a.Kind {
+	case "AR":
+		return !a.Opened || a.Given != 1 || !sameDump(a.Dump, orig, false)
+	case "AF":
+		return a.Opened || a.Given != 1
+	}
+	return a.Opened && (a.Given != 1 || !sameDump(a.Dump, orig, false))
 }
 
 type wrappedFile struct {
@@ -556,9 +682,12 @@ func goldenFiles() (files [][]byte, keks []tink.AEAD) {
 	return
 }
 
-func genTampers(r *rand.Rand, env *c05Env, m *c05Markers, work string, thorough bool) []tamperCase {
+// genTampers: alterations of the file (tried with the right key, kind AT) and foreign keys on
+// the original bytes (kind AF).  keys[0] is the right key, keys[1], keys[2] fresh ones, the
+// rest golden ones.
+func genTampers(r *rand.Rand, env *c05Env, keys []*countingAEAD, m *c05Markers, work string, thorough bool) []tamperCase {
 	orig, _ := os.ReadFile(env.path)
-	kek := env.kek.inner
+	const kek = 0
 	var out []tamperCase
 	var w wrappedFile
 	if json.Unmarshal(orig, &w) != nil {
@@ -604,20 +733,22 @@ func genTampers(r *rand.Rand, env *c05Env, m *c05Markers, work string, thorough 
 	}
 	out = append(out, tamperCase{"append", "garbage after the object", append(append([]byte(nil), orig...), []byte("{}")...), kek})
 	// foreign keys
-	other := newKEK()
-	out = append(out, tamperCase{"foreign-kek", "fresh AES-256-GCM key", orig, other})
-	gfiles, gkeks := goldenFiles()
-	for i, gk := range gkeks {
-		out = append(out, tamperCase{"foreign-kek", fmt.Sprintf("golden key %d", i), orig, gk})
+	for rep := 0; rep < 2; rep++ { // twice: also right after a refused attempt with the same key
+		out = append(out, tamperCase{"foreign-kek", "fresh AES-256-GCM key", orig, 1})
+		out = append(out, tamperCase{"foreign-kek", "second fresh AES-256-GCM key", orig, 2})
+		for i := 3; i < len(keys); i++ {
+			out = append(out, tamperCase{"foreign-kek", fmt.Sprintf("golden key %d", i-3), orig, i})
+		}
 	}
+	gfiles, _ := goldenFiles()
 	// fields of other valid databases
 	type src struct {
 		name string
 		bs   []byte
 	}
-	srcs := []src{{"another database under the same KEK", otherDB(filepath.Join(work, "c05other"), kek, m, 3)},
-		{"an empty database under the same KEK", otherDB(filepath.Join(work, "c05other"), kek, m, 0)},
-		{"a database under a different KEK", otherDB(filepath.Join(work, "c05other"), other, m, 2)}}
+	srcs := []src{{"another database under the same KEK", otherDB(filepath.Join(work, "c05other"), keys[0].inner, m, 3)},
+		{"an empty database under the same KEK", otherDB(filepath.Join(work, "c05other"), keys[0].inner, m, 0)},
+		{"a database under a different KEK", otherDB(filepath.Join(work, "c05other"), keys[1].inner, m, 2)}}
 	for i, g := range gfiles {
 		srcs = append(srcs, src{fmt.Sprintf("golden database %d", i), g})
 	}
@@ -645,13 +776,6 @@ func genTampers(r *rand.Rand, env *c05Env, m *c05Markers, work string, thorough 
 	return out
 }
 
-func coqOutcome(opened bool, dump []secDump) string {
-	if !opened {
-		return "OErr"
-	}
-	return "(OOpened " + coqDisk(dump) + ")"
-}
-
 // the API dump has no counters: compare with the counters dropped
 func dropLatest(d []secDump) []secDump {
 	out := make([]secDump, len(d))
@@ -662,47 +786,109 @@ func dropLatest(d []secDump) []secDump {
 	return out
 }
 
-func runTampers(work string, r *rand.Rand, env *c05Env, m *c05Markers, in C05Input, origDoc []secDump, thorough bool, only *C05Input) []Record {
+func newSession(work string, env *c05Env, m *c05Markers) *openSession {
+	dir := filepath.Join(work, "c05sess")
+	os.RemoveAll(dir)
+	os.MkdirAll(dir, 0700)
+	orig, _ := os.ReadFile(env.path)
+	s := &openSession{path: filepath.Join(dir, "db.json"), orig: orig, tok: m.token, dumpIx: map[string]int{}}
+	s.keys = []*countingAEAD{{inner: env.kek.inner}, {inner: newKEK()}, {inner: newKEK()}}
+	_, gkeks := goldenFiles()
+	for _, gk := range gkeks {
+		s.keys = append(s.keys, &countingAEAD{inner: gk})
+	}
+	return s
+}
+
+func (s *openSession) record(in C05Input, class, detail string, orig []secDump, atts []attempt, nAlt int) Record {
+	ti := in
+	ti.Mode, ti.Class, ti.Detail = "tamper", class, detail
+	s.dumps, s.dumpIx = nil, map[string]int{}
+	parts := make([]string, len(atts))
+	opened := 0
+	for i, a := range atts {
+		parts[i] = s.coq(a)
+		if a.Kind != "AR" && a.Opened {
+			opened++
+		}
+	}
+	rec := Record{Kind: "opens", Input: ti, Nontrivial: true, Tags: []string{"opens:" + class},
+		Coq: fmt.Sprintf("Opens %s %s %s", coqDisk(orig), coqList(s.dumps), coqList(parts))}
+	if detail != "" {
+		rec.Key = fmt.Sprintf("%d:%s:%s", in.MSeed, class, detail)
+		rec.Obs = map[string]any{"original": orig, "attempts": atts}
+	} else {
+		rec.Key = fmt.Sprintf("%d:%s:batch:%d", in.MSeed, class, len(in.Ops))
+		rec.Obs = map[string]any{"alterations": nAlt, "opened_to_original": opened, "open_attempts": len(atts)}
+	}
+	return rec
+}
+
+// runOpens: the open attempts on the final file of a history.
+func runOpens(work string, r *rand.Rand, env *c05Env, m *c05Markers, in C05Input, origDoc []secDump, thorough bool, only *C05Input) []Record {
 	orig := dropLatest(origDoc)
-	scratch := filepath.Join(work, "c05tamper.json")
-	byClass := map[string][]string{}
-	counts := map[string][2]int{}
+	s := newSession(work, env, m)
+	defer os.RemoveAll(filepath.Dir(s.path))
 	var recs []Record
-	for _, t := range genTampers(r, env, m, work, thorough) {
+	byClass := map[string][]attempt{}
+	nAlt := map[string]int{}
+	prev := s.right() // the process has just opened the original successfully
+	first := prev
+	tampers := genTampers(r, env, s.keys, m, work, thorough)
+	// foreign keys first (so that they are also the first to be reported), then the alterations
+	sort.SliceStable(tampers, func(i, j int) bool { return tampers[i].class == "foreign-kek" && tampers[j].class != "foreign-kek" })
+	for _, t := range tampers {
 		if only != nil && (only.Class != t.class || only.Detail != t.detail) {
 			continue
 		}
-		opened, dump, note := openOutcome(scratch, t, m.token)
-		c := counts[t.class]
-		c[0]++
-		if opened {
-			c[1]++
+		kind := "AT"
+		if t.class == "foreign-kek" {
+			kind = "AF"
 		}
-		counts[t.class] = c
-		if opened && !sameDump(dump, orig, false) || only != nil || note == "panic" {
-			// a report of its own, with the exact alteration
-			ti := in
-			ti.Mode, ti.Class, ti.Detail = "tamper", t.class, t.detail
-			rec := Record{Kind: "tamper", Input: ti, Key: fmt.Sprintf("%d:%s:%s", in.MSeed, t.class, t.detail), Nontrivial: true,
-				Tags: []string{"tamper:" + t.class}, Obs: map[string]any{"opened": opened, "contents": dump, "original": orig, "error": note},
-				Coq: fmt.Sprintf("Tamper %s [%s]", coqDisk(orig), coqOutcome(opened, dump))}
-			if note == "panic" {
+		a := s.try(kind, t)
+		after := s.right() // the right key still opens the original
+		nAlt[t.class]++
+		if suspicious(a, orig) || suspicious(after, orig) || only != nil {
+			rec := s.record(in, t.class, t.detail, orig, []attempt{prev, a, after}, 1)
+			if a.Panic {
 				rec.Direct = &DirectVerdict{OK: false, What: "db.Open panicked on the altered file: " + t.class + " " + t.detail}
 			}
 			recs = append(recs, rec)
-			continue
+		} else {
+			byClass[t.class] = append(byClass[t.class], a, after)
 		}
-		byClass[t.class] = append(byClass[t.class], coqOutcome(opened, dump))
+		prev = after
 	}
 	if only != nil {
 		return recs
 	}
+	// a run of attempts with no successful open in between
+	var seq []attempt
+	seq = append(seq, s.right())
+	for i := 0; i < 24; i++ {
+		k := r.IntN(len(s.keys) + 1)
+		if k >= len(s.keys) {
+			k = 0
+		}
+		if k == 0 {
+			seq = append(seq, s.right())
+		} else {
+			seq = append(seq, s.try("AF", tamperCase{"key-sequence", fmt.Sprintf("key #%d on the original bytes", k), s.orig, k}))
+		}
+	}
+	byClass["key-sequence"] = seq
+	nAlt["key-sequence"] = len(seq)
 	for _, cl := range sortedKeys(byClass) {
-		ti := in
-		ti.Mode, ti.Class = "tamper", cl
-		recs = append(recs, Record{Kind: "tamper", Input: ti, Key: fmt.Sprintf("%d:%s:batch:%d", in.MSeed, cl, len(in.Ops)), Nontrivial: true,
-			Tags: []string{"tamper:" + cl}, Obs: map[string]any{"alterations": counts[cl][0], "opened_to_original": counts[cl][1]},
-			Coq: fmt.Sprintf("Tamper %s %s", coqDisk(orig), coqList(byClass[cl]))})
+		// at most 2000 attempts per case: very long list literals overflow coqc's stack
+		all := byClass[cl]
+		for part := 0; len(all) > 0; part++ {
+			n := min(len(all), 2000)
+			atts := append([]attempt{first}, all[:n]...)
+			rec := s.record(in, cl, "", orig, atts, n/2)
+			rec.Key += fmt.Sprintf(":part%d", part)
+			recs = append(recs, rec)
+			all = all[n:]
+		}
 	}
 	return recs
 }
@@ -716,15 +902,21 @@ func keysRecord(work string) Record {
 	}
 	defer env.close()
 	m := genMarkers(1)
-	env.d.Put(env.super, string(m.names[0]), m.values[0])
-	k0 := env.kek.count()
-	_, err = db.Open(env.path, env.kek, audit.New(io.Discard))
-	atOpen := env.kek.count() - k0
+	var reopens []uint64
+	var rerr error
+	for i := 0; i < 4; i++ {
+		env.d.Put(env.super, string(m.names[i%2]), m.values[i])
+		n, err := env.reopen() // each reopen follows earlier successful opens in this process
+		reopens = append(reopens, uint64(n))
+		if err != nil {
+			rerr = err
+		}
+	}
 	rec := Record{Kind: "keys", Input: C05Input{Mode: "keys"}, Key: "keys", Nontrivial: true, Tags: []string{"keys"},
-		Obs: map[string]any{"at_create": env.createUses, "at_open": atOpen},
-		Coq: fmt.Sprintf("Keys %d %d", env.createUses, atOpen)}
-	if err != nil {
-		rec.Direct = &DirectVerdict{OK: false, What: "reopening failed: " + err.Error()}
+		Obs: map[string]any{"at_create": env.createUses, "at_reopens": reopens},
+		Coq: fmt.Sprintf("Keys %d %s", env.createUses, coqNList(reopens))}
+	if rerr != nil {
+		rec.Direct = &DirectVerdict{OK: false, What: "reopening failed: " + rerr.Error()}
 	}
 	return rec
 }
@@ -800,13 +992,13 @@ func runC05(o Opts) {
 					hin := rec.Input.(C05Input)
 					only := in
 					if in.Detail == "" {
-						for _, r := range runTampers(work, NewRand(o.Seed, 7), env, genMarkers(in.MSeed), hin, last, thorough, nil) {
+						for _, r := range runOpens(work, NewRand(o.Seed, 7), env, genMarkers(in.MSeed), hin, last, thorough, nil) {
 							if r.Input.(C05Input).Class == in.Class {
 								out.Emit(r)
 							}
 						}
 					} else {
-						for _, r := range runTampers(work, NewRand(o.Seed, 7), env, genMarkers(in.MSeed), hin, last, true, &only) {
+						for _, r := range runOpens(work, NewRand(o.Seed, 7), env, genMarkers(in.MSeed), hin, last, true, &only) {
 							out.Emit(r)
 						}
 					}
@@ -846,10 +1038,13 @@ func runC05(o Opts) {
 	if o.N > 0 {
 		n = o.N
 	}
-	var histSelf, tampSelf *Record
+	var histSelf, tampSelf, keySelf *Record
 	for i := 0; i < n; i++ {
 		r := NewRand(o.Seed, uint64(5000+i))
-		length := 4 + r.IntN(14)
+		length := 5 + r.IntN(14)
+		if i%5 == 4 {
+			length = 30 + r.IntN(16) // long, mutation-heavy, rare reopens: many saves on one handle
+		}
 		mseed := o.Seed*1000 + uint64(i)
 		rec, env, last := runC05History(work, idx, mseed, nil, r, length)
 		idx++
@@ -858,17 +1053,21 @@ func runC05(o Opts) {
 		if env == nil {
 			continue
 		}
-		if histSelf == nil && i >= 2 && rec.Coq != "" {
+		if histSelf == nil && i >= 2 && rec.Coq != "" && strings.Contains(rec.Coq, "HRe") && strings.Contains(rec.Coq, "OPut") {
 			c := rec
 			histSelf = &c
 		}
 		if i < nt {
-			for _, tr := range runTampers(work, r, env, genMarkers(mseed), rec.Input.(C05Input), last, thorough, nil) {
+			for _, tr := range runOpens(work, r, env, genMarkers(mseed), rec.Input.(C05Input), last, thorough, nil) {
 				tr.ID = out.n
 				out.Emit(tr)
-				if tampSelf == nil && len(last) > 0 && strings.Contains(tr.Coq, "OErr") {
+				if tampSelf == nil && len(last) > 0 && strings.Contains(tr.Coq, "At AT None") {
 					c := tr
 					tampSelf = &c
+				}
+				if keySelf == nil && strings.Contains(tr.Coq, "At AF None 1 0") {
+					c := tr
+					keySelf = &c
 				}
 			}
 		}
@@ -877,26 +1076,42 @@ func runC05(o Opts) {
 	// ---- self-tests
 	if histSelf != nil {
 		in := histSelf.Input.(C05Input)
-		obs := append([]c05StepObs(nil), histSelf.Obs.([]c05StepObs)...)
-		last := obs[len(obs)-1]
-		last.ValHits = []scanHit{{File: "self-test", Marker: "value#1", Form: "plain"}}
-		obs[len(obs)-1] = last
-		alt := *histSelf
-		alt.Coq, alt.SelfTest, alt.SelfOf, alt.Obs = coqHist(genMarkers(in.MSeed), in.Ops, obs), true, histSelf.ID, nil
-		out.Emit(alt)
-		obs2 := append([]c05StepObs(nil), histSelf.Obs.([]c05StepObs)...)
-		l2 := obs2[len(obs2)-1]
-		l2.S.DEKother = true
-		obs2[len(obs2)-1] = l2
-		alt2 := *histSelf
-		alt2.Coq, alt2.SelfTest, alt2.SelfOf, alt2.Obs = coqHist(genMarkers(in.MSeed), in.Ops, obs2), true, histSelf.ID, nil
-		out.Emit(alt2)
+		mk := genMarkers(in.MSeed)
+		emitAlt := func(f func(o *c05StepObs), pick func(st DBStep) bool) {
+			obs := append([]c05StepObs(nil), histSelf.Obs.([]c05StepObs)...)
+			for i := len(obs) - 1; i >= 0; i-- {
+				if pick(in.Ops[i]) {
+					o := obs[i]
+					f(&o)
+					obs[i] = o
+					alt := *histSelf
+					alt.Coq, alt.SelfTest, alt.SelfOf, alt.Obs = coqHist(mk, in.Ops, obs), true, histSelf.ID, nil
+					out.Emit(alt)
+					return
+				}
+			}
+		}
+		any := func(DBStep) bool { return true }
+		emitAlt(func(o *c05StepObs) { o.ValHits = []scanHit{{File: "self-test", Marker: "value#1", Form: "plain"}} }, any)
+		emitAlt(func(o *c05StepObs) { o.S.DEKother = true }, any)
+		emitAlt(func(o *c05StepObs) { o.KEK = 0 }, func(st DBStep) bool { return st.Kind == "reopen" })   // a reopen that did not consult the key
+		emitAlt(func(o *c05StepObs) { o.KEK = 1 }, func(st DBStep) bool { return st.Kind == "put" })      // a write that did
 	}
 	if tampSelf != nil {
 		alt := *tampSelf
-		alt.Coq = strings.Replace(tampSelf.Coq, "OErr", "(OOpened [])", 1)
+		alt.Coq = strings.Replace(tampSelf.Coq, "At AT None", "At AT (Some 99)", 1)
 		alt.SelfTest, alt.SelfOf, alt.Obs = true, tampSelf.ID, nil
 		out.Emit(alt)
+	}
+	if keySelf != nil {
+		alt := *keySelf
+		alt.Coq = strings.Replace(keySelf.Coq, "At AF None 1 0", "At AF None 0 0", 1) // a foreign key refused without being consulted
+		alt.SelfTest, alt.SelfOf, alt.Obs = true, keySelf.ID, nil
+		out.Emit(alt)
+		alt2 := *keySelf
+		alt2.Coq = strings.Replace(keySelf.Coq, "At AF None 1 0", "At AF (Some 0) 0 0", 1) // a foreign key let through
+		alt2.SelfTest, alt2.SelfOf, alt2.Obs = true, keySelf.ID, nil
+		out.Emit(alt2)
 	}
 	for _, r := range selfSrc {
 		alt := r
